@@ -23,7 +23,8 @@ REPO = Path(os.environ.get("CFDP_VERIF_REPO", "/repo"))
 COQ = VERIF / "coq"
 EXTRACT = COQ / "extract"
 RUNNER = EXTRACT / "runner"
-EVIDENCE = VERIF / "evidence"
+# bin/seeded runs the checks on a deliberately broken /repo: its evidence must not replace the committed records
+EVIDENCE = Path(os.environ.get("VERIF_EVIDENCE_DIR") or VERIF / "evidence")
 REPLAYS = VERIF / "replays"
 CORPUS = VERIF / "corpus"
 KNOWN_FINDINGS = VERIF / "known_findings.json"
@@ -302,7 +303,7 @@ class Verdict:
         self.known_hits[finding["id"]] = finding["what"]
 
     def finish(self, level="proof") -> int:
-        EVIDENCE.mkdir(exist_ok=True)
+        EVIDENCE.mkdir(parents=True, exist_ok=True)
         wk = os.environ.get("VERIF_WORKER_OUT")
         if wk:      # worker of a multi-process thorough run: hand everything to the parent
             Path(wk).write_text(json.dumps({"coverage": self.coverage, "violations": self.violations, "known": self.known_hits,
